@@ -164,6 +164,28 @@ SPEC = {
             {"name": "random", "test": "TestC11Random", "checks": [1500, 20000], "shards": [4, 14], "timeout": [900, 7200]},
         ],
     },
+    "C13": {
+        "level": "exploration",
+        "rule": "every procedure of the Yorkie, Admin and Cluster services, enumerated from the generated protoreflect service descriptors (64 today; "
+                "new ones join automatically; each gets the same share of the budget), is called over raw Connect HTTP (unary application/proto; "
+                "5-byte envelope for the streaming ones) with a request whose identifier fields (client_id, document_id, document_key(s), "
+                "project_name/id, revision_id, schema_name, username, ...) are drawn from pools {attacker's own, victim's, random well-formed, "
+                "malformed} (biased 2:1 towards the victim's), valid change packs, and every credential in {none (= default project), attacker's "
+                "public key, attacker's secret key (API-Key scheme), attacker's admin token, the victim's ROTATED-OUT public/secret keys, "
+                "garbage, wrong/right cluster secret}. Three projects owned by three users are populated with a client, two documents (one key "
+                "shared by all projects) with planted marker content, a revision and a schema; the victim is never called with its own credentials. "
+                "oracle for every non-owner credential: the victim project's stored rows read through the Database interface (project, client, "
+                "documents, change log, snapshot, min vector, revisions, schemas, members) serialise byte-identically before and after; the raw "
+                "response contains none of the victim's planted markers, keys or token; Admin procedures (except the four password-authenticated ones) without a valid admin credential and Cluster procedures "
+                "without the cluster secret answer unauthenticated; rotated-out or garbage credentials never succeed. The same generated "
+                "requests are also sent with the OWNER's credentials to a control project and the successes counted per procedure (non-vacuity). "
+                "non-trivial = the request carried >=1 victim identifier and was answered by the handler (not by the credential check); "
+                "distinct = distinct (procedure, credential, picks)",
+        "assumptions": ["in-memory database backend", "no auth webhook configured", "'no credential' resolves to the default project by design (UseDefaultProject) and is treated as one more foreign project"],
+        "parts": [
+            {"name": "matrix", "test": "TestC13", "checks": [2500, 40000], "shards": [4, 14], "timeout": [900, 7200]},
+        ],
+    },
 }
 
 # Entries delivered next to their check package (harness/<pkg>/SPEC.py.txt).
